@@ -476,10 +476,55 @@ def rule_wrap(ctx: Ctx) -> RuleReport:
 
     tmpl(dec, "def f(self, data):\n    iv = data[:16]\n    payload = data[16:]\n    if not payload:\n        return payload\n    if len(payload) % 16 != 0:\n        payload = _pkcs7_pad(payload, 16)\n    plain = aes_cbc_decrypt(getattr(self, 'key'), iv, payload)\n    return _pkcs7_unpad(plain, 16)",
          "decrypt: split the 16-byte IV, CBC-decrypt the rest, remove the PKCS#7 padding")
-    tmpl(ctx.p.func(AES, "_pkcs7_pad"), "def f(data, block_size):\n    padding = block_size - len(data) % block_size\n    return data + bytes([padding]) * padding",
-         "PKCS#7 pad: always 1..block_size bytes of value `padding`")
-    tmpl(ctx.p.func(AES, "_pkcs7_unpad"), "def f(data, block_size):\n    if not data:\n        return data\n    padding = data[-1]\n    if padding < 1 or padding > block_size:\n        raise ValueError('Invalid PKCS#7 padding')\n    if data[-padding:] != bytes([padding]) * padding:\n        raise ValueError('Invalid PKCS#7 padding')\n    return data[:-padding]",
-         "PKCS#7 unpad: validate 1 <= padding <= block_size and the padding bytes, strip exactly `padding` bytes")
+    # PKCS#7 helpers: folded over their whole input partition for block size 16 instead of being compared with a template.
+    # Their behaviour depends only on len(data) % 16, the last byte and the run of equal trailing bytes.
+    from sa.engine.absinterp import Evaluator, Raised
+    padf, unpadf = ctx.p.func(AES, "_pkcs7_pad"), ctx.p.func(AES, "_pkcs7_unpad")
+
+    def fold(fi, args):
+        try:
+            return ("ok", Evaluator(ctx.p, ctx.folder).call(fi, list(args)))
+        except Raised as r:
+            return ("raise", r.cls.split(".")[-1])
+
+    bad_pad = bad_unpad = None
+    n_pad = n_unpad = 0
+    for ln in range(0, 49):
+        data = bytes((i * 7 + 3) % 251 for i in range(ln))
+        n_pad += 1
+        want = data + bytes([16 - ln % 16]) * (16 - ln % 16)
+        got = fold(padf, (data, 16))
+        if got != ("ok", want) and bad_pad is None:
+            bad_pad = (ln, got)
+    for prefix_len in (0, 1, 15, 16, 17):
+        for x in list(range(0, 19)) + [255]:
+            for run in range(0, 19):
+                for before in (None, x, (x + 1) % 256):
+                    body = bytes([65 + (i % 20) for i in range(prefix_len)])
+                    if before is not None:
+                        body += bytes([before])
+                    data = body + bytes([x]) * run
+                    n_unpad += 1
+                    if not data:
+                        want = ("ok", b"")
+                    else:
+                        pd = data[-1]
+                        if pd < 1 or pd > 16 or data[-pd:] != bytes([pd]) * pd:
+                            want = ("raise", "ValueError")
+                        else:
+                            want = ("ok", data[:-pd])
+                    got = fold(unpadf, (data, 16))
+                    if got != want and bad_unpad is None:
+                        bad_unpad = (data, got, want)
+    if bad_pad is None:
+        rep.ok({"_pkcs7_pad": f"folded over {n_pad} message lengths 0..48: appends 16 - len % 16 bytes of that value"})
+    else:
+        rep.fail(Finding("C20-WRAP", AES, padf.qual, f"pad of a {bad_pad[0]}-byte message -> {str(bad_pad[1])[:80]}", "PKCS#7 padding on encryption is not 16 - len % 16 bytes of that value", line=padf.node.lineno))
+    if bad_unpad is None:
+        rep.ok({"_pkcs7_unpad": f"folded over {n_unpad} (prefix, last byte, trailing run) classes: validates and strips exactly the padding"})
+    else:
+        d, got, want = bad_unpad
+        rep.fail(Finding("C20-WRAP", AES, unpadf.qual, f"unpad({d[-20:]!r}) -> {str(got)[:60]}", f"PKCS#7 unpadding does not remove exactly the padding (or accepts / rejects wrongly): expected {str(want)[:60]}", line=unpadf.node.lineno))
     return rep
 
 
